@@ -936,12 +936,41 @@ func c16R8(p *core.Prog, r *core.Report) {
 				return
 			}
 			n++
-			ok := core.AllOrigins(core.Origins(c.Common().Args[0], core.SliceOpts{Helpers: core.Helpers(fn, 2)}), func(o core.Origin) bool {
-				if o.Kind == core.OField {
-					return true // the index's own list (a field of the manifest the method belongs to)
-				}
-				return o.Kind == core.OCall && o.Call.Call.IsInvoke() && o.Call.Call.Method.Name() == "GetManifestList"
-			})
+			// the search may sit in an unexported helper that is handed the list: the rule is then about
+			// what its callers in the package hand over
+			var listOK func(f *ssa.Function, v ssa.Value, depth int) bool
+			listOK = func(f *ssa.Function, v ssa.Value, depth int) bool {
+				return core.AllOrigins(core.Origins(v, core.SliceOpts{}), func(o core.Origin) bool {
+					switch {
+					case o.Kind == core.OField:
+						return true // the index's own list (a field of the manifest the method belongs to)
+					case o.Kind == core.OCall:
+						return o.Call.Call.IsInvoke() && o.Call.Call.Method.Name() == "GetManifestList"
+					case o.Kind == core.OParam && depth < 3 && f.Object() != nil && !f.Object().Exported():
+						idx := -1
+						for i, pr := range f.Params {
+							if pr == o.Param {
+								idx = i
+							}
+						}
+						sites, all := 0, true
+						for _, caller := range pkgFuncs(p, "types/manifest") {
+							core.Calls(caller, func(cc ssa.CallInstruction) {
+								if core.CalleeFn(cc) != f || idx < 0 || idx >= len(cc.Common().Args) {
+									return
+								}
+								sites++
+								if !listOK(caller, cc.Common().Args[idx], depth+1) {
+									all = false
+								}
+							})
+						}
+						return sites > 0 && all
+					}
+					return false
+				})
+			}
+			ok := listOK(fn, c.Common().Args[0], 0)
 			r.Check(ok, rule, p.FuncName(fn), lab.next("list handed to the ranked search"), p.Pos(c.Pos()),
 				"the list searched is not (only) the index's own list of entries: an entry left out of it cannot win although the ordering ranks it best")
 		})
